@@ -5,10 +5,13 @@ import (
 	"context"
 	"encoding/hex"
 	"fmt"
+	"github.com/ipfs/go-cid"
 	"math/rand"
+	"sort"
 	"strings"
 	"sync"
 	"sync/atomic"
+	"time"
 
 	"berty.tech/go-ipfs-log/entry"
 	idp "berty.tech/go-ipfs-log/identityprovider"
@@ -27,15 +30,29 @@ type countingDS struct {
 	ds.Datastore
 	gets, puts int64
 	failPut    func(k ds.Key) bool // injected write failure
+	honourCtx  bool                // like datastores backed by a database or the network: refuse requests whose context has ended
 }
 
 func (c *countingDS) Get(ctx context.Context, k ds.Key) ([]byte, error) {
 	atomic.AddInt64(&c.gets, 1)
+	if err := ctx.Err(); err != nil && c.honourCtx {
+		return nil, err
+	}
 	return c.Datastore.Get(ctx, k)
+}
+
+func (c *countingDS) Has(ctx context.Context, k ds.Key) (bool, error) {
+	if err := ctx.Err(); err != nil && c.honourCtx {
+		return false, err
+	}
+	return c.Datastore.Has(ctx, k)
 }
 
 func (c *countingDS) Put(ctx context.Context, k ds.Key, v []byte) error {
 	atomic.AddInt64(&c.puts, 1)
+	if err := ctx.Err(); err != nil && c.honourCtx {
+		return err
+	}
 	if c.failPut != nil && c.failPut(k) {
 		return fmt.Errorf("injected datastore write failure")
 	}
@@ -102,7 +119,7 @@ func CheckC20(run *evid.Run) {
 	parallel(nseq, func(i int) {
 		rng := rand.New(rand.NewSource(run.Seed*2750159 + int64(i)))
 		ctx := context.Background()
-		d := &countingDS{Datastore: dssync.MutexWrap(ds.NewMapDatastore())}
+		d := &countingDS{Datastore: dssync.MutexWrap(ds.NewMapDatastore()), honourCtx: i%2 == 0}
 		newKS := func() *keystore.Keystore {
 			k, err := keystore.NewKeystore(d)
 			if err != nil {
@@ -119,6 +136,7 @@ func CheckC20(run *evid.Run) {
 			nIDs = 200
 		}
 		ref := map[string][]byte{}
+		idents := map[string]*idp.Identity{} // name -> the identity its first creation yielded
 		var ids []string
 		restarts := 0
 		var trace []string
@@ -219,6 +237,39 @@ func CheckC20(run *evid.Run) {
 						}
 					}
 				}
+			case x < 48 && len(ids) > 0:
+				// a request that was given up (its context has ended) about an existing key, or an identity creation
+				// under such a context: whatever it returns, it must not replace or lose anything
+				done, cancel := context.WithCancel(ctx)
+				cancel()
+				if rng.Intn(2) == 0 {
+					done, cancel = context.WithDeadline(ctx, time.Unix(1, 0))
+					defer cancel()
+				}
+				id := ids[rng.Intn(len(ids))]
+				_, _ = inst[who].HasKey(done, id)
+				_, _ = inst[who].GetKey(done, id)
+				log("given-up-requests(%s)@%d", id, who)
+				run.Count("requests_under_an_ended_context", 1)
+				if len(idents) > 0 {
+					var names []string
+					for n := range idents {
+						names = append(names, n)
+					}
+					sort.Strings(names)
+					name := names[rng.Intn(len(names))]
+					_, _ = idp.CreateIdentity(done, &idp.CreateIdentityOptions{Keystore: inst[who], ID: name, Type: "orbitdb"})
+					log("given-up-identity(%s)@%d", name, who)
+					again, err := idp.CreateIdentity(ctx, &idp.CreateIdentityOptions{Keystore: inst[rng.Intn(len(inst))], ID: name, Type: "orbitdb"})
+					if err != nil {
+						run.Violate("C20/createidentity-error", det("after", "given-up request"), wit(), "CreateIdentity(%q) failed after a given-up request for it: %v", name, err)
+					} else if f := identityDiff(idents[name], again); f != "" {
+						run.Violate("C20/identity-unstable", det("field", f, "after", "given-up request"), wit(), "after an identity creation under an ended context, creating the identity %q again gave a different %s", name, f)
+					}
+				}
+				for w := range inst {
+					probe(id, w)
+				}
 			case x < 60 && len(ids) > 0:
 				id := ids[rng.Intn(len(ids))]
 				if rng.Intn(3) == 0 {
@@ -260,6 +311,11 @@ func CheckC20(run *evid.Run) {
 				if f := identityDiff(a, b); f != "" {
 					run.Violate("C20/identity-unstable", det("field", f), wit(), "creating the identity %q twice gave different %s", name, f)
 				}
+				if first, ok := idents[name]; !ok {
+					idents[name] = a
+				} else if f := identityDiff(first, a); f != "" {
+					run.Violate("C20/identity-unstable", det("field", f, "after", "earlier creation in this sequence"), wit(), "creating the identity %q again later in the sequence gave a different %s", name, f)
+				}
 				// the keys it created are keys "once created" too
 				for _, kid := range []string{name, a.ID} {
 					if _, ok := ref[kid]; !ok {
@@ -282,6 +338,29 @@ func CheckC20(run *evid.Run) {
 					run.Violate("C20/entry-verify", det(), wit(), "entry signed with identity %q does not verify under the published key: %v", name, err)
 				}
 				run.Count("entries_signed_and_verified", 1)
+				// the identity a READER gets (decoded from the stored entry) is the same identity and is self-consistent too
+				for _, codec := range []string{"cbor", "link"} {
+					st := store.New()
+					io := hx.IO(codec)
+					we, err := entry.CreateEntryWithIO(ctx, st.API(), a, &entry.Entry{LogID: "c20", Payload: []byte(fmt.Sprintf("r-%d-%d", i, op)), Next: []cid.Cid{e.GetHash()}}, nil, io)
+					if err != nil {
+						run.Violate("C20/sign-entry", det("codec", codec), wit(), "signing an entry with identity %q failed: %v", name, err)
+						continue
+					}
+					back, err := entry.FromMultihashWithIO(ctx, st.API(), we.GetHash(), a.Provider, io)
+					if err != nil || back == nil || back.GetIdentity() == nil {
+						run.Violate("C20/read-back-identity", det("codec", codec), wit(), "reading back an entry signed with identity %q failed or carries no identity: %v", name, err)
+						continue
+					}
+					if f := identityDiff(a, back.GetIdentity()); f != "" {
+						run.Violate("C20/read-back-identity", det("codec", codec, "field", f), wit(), "the identity carried by an entry read back from storage differs from the identity %q that signed it in: %s", name, f)
+					}
+					checkIdentity(run, back.GetIdentity(), name+" (read back, "+codec+")", wit)
+					if err := back.Verify(a.Provider, io); err != nil {
+						run.Violate("C20/entry-verify", det("codec", codec, "read_back", true), wit(), "entry signed with identity %q and read back does not verify: %v", name, err)
+					}
+					run.Count("identities_read_back_from_stored_entries", 1)
+				}
 			}
 		}
 		// final sweep: every created id on every instance and on a fresh one
